@@ -59,13 +59,14 @@ func (f *cField) val() *VStruct {
 	desc := cstruct("FieldDesc", map[string]Val{
 		"Name()": constStr(f.Name), "JSONName()": constStr(f.JSON), "IsList()": VBool{B: f.List}, "IsMap()": VBool{B: f.Map},
 		"HasOptionalKeyword()": VBool{B: f.Opt}, "Kind()": VInt{N: kindNum[f.Kind], Label: kindLabel[f.Kind]},
-		"HasPresence()": VBool{B: f.Opt || f.Kind == "message"},
+		"HasPresence()": VBool{B: f.Opt || f.Kind == "message"}, "Options()": VNil{},
 	})
 	var msg Val = VNil{}
 	if f.Msg != nil {
 		msg = f.Msg
 	}
-	fields := map[string]Val{"Desc": desc, "Message": msg, "Enum": VNil{}, "Oneof": VNil{}, "GoName": constStr(strings.Title(snakeToCamelJSON(f.Name)))}
+	fields := map[string]Val{"Desc": desc, "Message": msg, "Enum": VNil{}, "Oneof": VNil{}, "GoName": constStr(strings.Title(snakeToCamelJSON(f.Name))),
+		"Comments": cstruct("CommentSet", map[string]Val{"Leading": constStr("")})}
 	for k, v := range f.Ann {
 		fields[k] = v
 	}
@@ -80,7 +81,7 @@ func cMessage(name string, fields ...*cField) *VStruct {
 	}
 	desc := cstruct("MessageDesc", map[string]Val{"Name()": constStr(name), "FullName()": constStr("pkg." + name), "IsMapEntry()": VBool{}})
 	return cstruct("Message", map[string]Val{"Fields": fl, "Oneofs": VList{Key: "oneofs", Elems: []Val{}}, "Messages": VList{Key: "msgs", Elems: []Val{}}, "Desc": desc,
-		"GoIdent": cstruct("GoIdent", map[string]Val{"GoName": constStr(name)})})
+		"GoIdent": cstruct("GoIdent", map[string]Val{"GoName": constStr(name)}), "Comments": cstruct("CommentSet", map[string]Val{"Leading": constStr("")})})
 }
 
 // cOneof groups fields of msg into a oneof (real, not synthetic).
@@ -138,6 +139,22 @@ func (c *Ctx) cdescHook(fn *types.Func, recv Val, args []Val) (Val, bool) {
 		if v, ok := st.Fields[fn.Name()+"()"]; ok {
 			return v, true
 		}
+	}
+	if st, ok := recv.(*VStruct); ok && st.Name == "builder" && fn.Pkg() != nil && fn.Pkg().Path() == "strings" {
+		switch fn.Name() {
+		case "WriteString":
+			if len(args) == 1 {
+				a, _ := toStr(st.Fields["buf"])
+				b, _ := toStr(args[0])
+				st.Fields["buf"] = foldConsts(VStr{Segs: append(append([]Seg{}, a.Segs...), b.Segs...)})
+				return VTuple{VInt{}, VNil{}}, true
+			}
+		case "String":
+			return st.Fields["buf"], true
+		}
+	}
+	if st, ok := recv.(*VStruct); ok && st.Name == "omap" && fn.Name() == "Len" {
+		return VInt{N: int64(len(st.Fields))}, true
 	}
 	if iv, ok := recv.(VInt); ok && fn.Name() == "String" && strings.HasSuffix(iv.Label, "Kind") {
 		return constStr(strings.ToLower(strings.TrimSuffix(iv.Label, "Kind"))), true
